@@ -64,8 +64,9 @@ class SeqDriver:
         self.handles = []
         self.evs = []
         self.resets = 0
-        gc.collect()
-        gc.freeze()           # the state graph lives in this process: keep it out of every later collection
+        # The state graph lives in this (forked) process.  freeze() is O(1) and keeps it out of every later collection; a full
+        # collect() here would touch every inherited object and copy the parent's whole heap page by page (copy-on-write).
+        gc.freeze()
         gc.disable()          # no finalizer may run at a moment the walk did not choose (Drop is an explicit step)
 
     # ------------------------------------------------------------------ plumbing
